@@ -11,8 +11,6 @@ section
 variable {α : Type} [Add α] [Sub α] [Mul α] [Div α] [Neg α] [LT α] [LE α]
   [DecidableLT α] [DecidableLE α] [OfNat α 0] [OfNat α 1] [OfNat α 2] [Scalar α]
 
-def V2.normalize (v : V2 α) : V2 α := let n := V2.norm v; ⟨v.x / n, v.y / n⟩
-def V3.normalize (v : V3 α) : V3 α := let n := V3.norm v; ⟨v.x / n, v.y / n, v.z / n⟩
 
 def devTolCurve : α := Scalar.ofRat Gen.DEV_NORMAL_TOL_CURVE_num Gen.DEV_NORMAL_TOL_CURVE_den
 def devTolMesh : α := Scalar.ofRat Gen.DEV_NORMAL_TOL_MESH_num Gen.DEV_NORMAL_TOL_MESH_den
